@@ -77,6 +77,24 @@ def fn_reads(ctx, func):
     return out
 
 
+def _never_started_when(ctx, pred, val):
+    """evaluate the life-cycle predicate `pred` over the 7-point domain: if `pred() == val` holds
+    only for never-scheduled jobs -> True (exact once-guard); if it also holds for scheduled
+    jobs that are not running yet -> False (weak guard); if it holds for no idle job -> None"""
+    from . import predicates
+    from .. import tt
+    dom, fin = predicates.lifecycle_domain(ctx)
+    ev = predicates.evaluator(ctx, ctx.roles.jobbase)
+    try:
+        tab = tt.table(ev, pred, dom)
+    except tt.Inconclusive:
+        return None
+    pts = [lbl for lbl, _ in dom if tab[lbl][0] == 'ret' and bool(tab[lbl][1]) == bool(val)]
+    if not any(p.startswith('idle') for p in pts):
+        return None
+    return all(p.startswith('idle') for p in pts)
+
+
 def run_starts(an):
     return [e for e in an.events('SPAWN') if e.data['tkind'] in ('run', 'bare')]
 
@@ -337,10 +355,13 @@ def once_guard(ctx, rep, rule):
         site = "%s once-guard" % e.where
         guard = None
         for k, v in e.st.facts.items():
-            if k[0] == 'mcall' and k[1] == j and not k[3] and v is False:
+            if k[0] == 'mcall' and k[1] == j and not k[3]:
                 f = ctx.prog.supplier(r.jobbase, k[2])
-                if f is not None:
-                    guard = (k, fn_reads(ctx, f), "%s()" % k[2])
+                if f is not None and _never_started_when(ctx, k[2], v) is not None:
+                    exact = _never_started_when(ctx, k[2], v)
+                    reads = fn_reads(ctx, f)
+                    # a predicate that is true exactly on never-scheduled jobs reads the registry only
+                    guard = (k, reads if not exact else {reg}, "%s%s()" % ("" if v else "not ", k[2]))
             elif k[0] == 'cmp' and k[1] in ('is', 'is not') and k[3] == T.NONE and T.is_attr(k[2]) \
                     and k[2][1] == j and v == (k[1] == 'is'):
                 guard = (k, {k[2][2]}, "%s is None" % k[2][2])
